@@ -333,7 +333,8 @@ def Seg.copySlot (seg : Seg) (i rf : Nat) : Seg :=
   let seg := seg.upd i fun si => si.copyFrom sr
   match sr.parent with
   | some p =>
-    -- `if (is->attachedTo() && !is->attachedTo()->child(is)) is->attachTo(NULL);`
+    -- `if (is->attachedTo() && (is->attachedTo()->isDeleted() || !is->attachedTo()->child(is))) is->attachTo(NULL);`
+    if (seg.get p).deleted then seg.upd i fun sl => sl.setParent none else
     let r := child seg p i
     if r.1 then r.2 else r.2.upd i fun sl => sl.setParent none
   | none => seg
